@@ -51,6 +51,7 @@ DevTrFirst  == {"TranslateFirstOnly"}
 DevCopyW    == {"CopyLosesWeights"}
 DevShare    == {"CopySharesBuffers"}
 DevStack    == {"StackBroadcasts"}
+DevYield    == {"YieldReusesView"}
 
 View == sv
 Emit == PrintT(ToJson([from |-> sv, act |-> last', to |-> sv', obs |-> Obs']))
